@@ -163,8 +163,8 @@ def c12_scope(prior, body_raises, nested):
                         pass
                     inner_after = set(base.IGNORE_FIELDS_FOR_COMPARISON)
                 if body_raises:
-                    raise ValueError("body fails")
-        except ValueError:
+                    raise {True: ValueError, "KeyboardInterrupt": KeyboardInterrupt, "GeneratorExit": GeneratorExit, "SystemExit": SystemExit}[body_raises]("body fails")
+        except BaseException:
             pass
         after = set(base.IGNORE_FIELDS_FOR_COMPARISON)
         ok = after == before and inside == {"n"} and (inner_after == {"n"} if nested else True)
